@@ -567,6 +567,7 @@ unit = {
     "property": ["C20"],
     "desc": "C interface: src/soplex_interface.cpp compiled WHOLE and UNMODIFIED against recording stubs of soplex.h; "
             "one contract per extern \"C\" function on its real signature (generated by gen.py - do not edit by hand)",
+    "scope_bounded": False,   # unwind_loops entries are for the loop census / constant-bounded library loops only
     "rmode": "double (IEEE, bit-precise; values are only copied and compared with 0) / Rational = (num, den) pair of longs",
     "cpp": ["unit.cpp"],
     "c": ["contract.c"],
